@@ -93,13 +93,34 @@ def run(ctx):
         d_ponly = os.path.join(root, "ponly")
         os.makedirs(d_ponly)
         shutil.copy(os.path.join(tdirs["1.6.0"], "p.db"), os.path.join(d_ponly, "p.db"))
+        d_emptydb2 = os.path.join(root, "emptydb2")
+        os.makedirs(os.path.join(d_emptydb2, "Database2"))
+        d_db2other = os.path.join(root, "db2other")
+        os.makedirs(os.path.join(d_db2other, "Database2"))
+        open(os.path.join(d_db2other, "Database2", "hm.db"), "w").write("")
         for name, d in (("missing-directory", d_missing), ("empty-directory", d_empty), ("both-layouts", d_both),
-                        ("unrelated-files-only", d_other), ("p.db-only", d_ponly)):
+                        ("unrelated-files-only", d_other), ("p.db-only", d_ponly), ("empty-Database2-subdirectory", d_emptydb2),
+                        ("Database2-without-m.db", d_db2other), ("empty-directory-trailing-slash", d_empty + "/"),
+                        ("both-layouts-trailing-slash", d_both + "/")):
             cid = "dir-" + name
             dcases[cid] = name
             loads.append({"id": cid, "ops": [{"op": "load", "dir": d}, {"op": "exists", "dir": d}]})
+        slash = {}
+        for s_ in TEMPLATES:
+            cid = "slash-" + s_
+            slash[cid] = s_
+            loads.append({"id": cid, "ops": [{"op": "load", "dir": tdirs[s_] + "/"}, {"op": "exists", "dir": tdirs[s_] + "/"}, {"op": "release_all"}]})
         results = {}
         runner.run_cases(loads, cfg="plain", on_result=lambda r: results.__setitem__(r.case["id"], r))
+        for cid, s_ in slash.items():
+            r = results.pop(cid)
+            ctx.count()
+            ev = r.events
+            if r.crash or not ev or "exc" in ev[0] or ev[0]["ret"]["version_name"] != s_ or ev[0]["ret"]["loaded_schema"] != s_:
+                ctx.violation(f"trailing-slash-path-misidentified {s_}", f"loading {s_} through a path with a trailing slash gives "
+                              f"{ev[0].get('ret') if ev else None}{ev[0].get('exc', {}).get('type') if ev and 'exc' in ev[0] else ''}", {"ops": r.case["ops"]})
+            elif ev[1].get("ret") is not True:
+                ctx.violation(f"trailing-slash-exists-false {s_}", "database_exists() is false for a library named with a trailing slash", {"ops": r.case["ops"]})
         for cid, r in results.items():
             ev = r.events
             wit = {"case": cid, "ops": r.case["ops"]}
